@@ -58,6 +58,10 @@ type Scenario struct {
 	Writers [][]WOp          `json:"writers"`
 	Subs    []SubSpec        `json:"subs"`
 	Sched   []string         `json:"sched,omitempty"`
+	// Churn: subscribers may be cancelled during the run (step "x<i>"); single-writer scenarios, judged by the
+	// monitor only (the Lean model has no listener removal)
+	Churn   bool `json:"churn,omitempty"`
+	MaxGone int  `json:"max_gone,omitempty"` // at most this many subscribers are cancelled (0 = one)
 }
 
 func (o WOp) encode() string {
@@ -118,7 +122,7 @@ func (sc Scenario) driverLine(sched []string) string {
 	}
 	var acts []string
 	for _, a := range sched {
-		if a[0] == 'p' || a[0] == 'b' { // harness-only steps: no move of the model
+		if a[0] == 'p' || a[0] == 'b' || a[0] == 'x' { // harness-only steps: no move of the model
 			continue
 		}
 		acts = append(acts, a)
@@ -248,6 +252,8 @@ type consumer struct {
 	evs      []ev
 	sentinel chan struct{}
 	closed   chan struct{}
+	cancel   context.CancelFunc
+	gone     bool // cancelled during the run: no claim about its view
 }
 
 func (c *consumer) add(e ev, isSentinel bool) {
@@ -266,7 +272,8 @@ func (c *consumer) add(e ev, isSentinel bool) {
 
 // subscribe performs the Pull call (the subscribe step) and starts the free-running consumer.
 func (w *world) subscribe(ctx context.Context, spec SubSpec) *consumer {
-	c := &consumer{spec: spec, sentinel: make(chan struct{}), closed: make(chan struct{})}
+	ctx, cancelSub := context.WithCancel(ctx)
+	c := &consumer{spec: spec, sentinel: make(chan struct{}), closed: make(chan struct{}), cancel: cancelSub}
 	opts := []resource.ReadOption{resource.WithUpdatesOnly(spec.UO), resource.WithBackpressure(spec.BP)}
 	switch {
 	case w.res == "value":
@@ -350,7 +357,7 @@ func (o *Outcome) finish(w *world, sc Scenario, cancel context.CancelFunc) {
 			limit = 60 * time.Millisecond
 		}
 		for _, c := range o.Subs {
-			if c == nil || c.spec.BP || !wok {
+			if c == nil || c.gone || c.spec.BP || !wok {
 				continue
 			}
 			deadline := time.Now().Add(limit)
@@ -368,7 +375,7 @@ func (o *Outcome) finish(w *world, sc Scenario, cancel context.CancelFunc) {
 	}
 	w.sentinels(sc)
 	for i, c := range o.Subs {
-		if c == nil {
+		if c == nil || c.gone {
 			continue
 		}
 		wait := 5 * time.Second
@@ -500,6 +507,32 @@ func runHooked(ctl *k4.Controller, sc Scenario, prefix []string, choose chooser)
 				enabled = append(enabled, "s"+strconv.Itoa(i))
 			}
 		}
+		if sc.Churn {
+			gone, maxGone := 0, sc.MaxGone
+			if maxGone == 0 {
+				maxGone = 1
+			}
+			for i := 0; i < ns; i++ {
+				if out.Subs[i] != nil && out.Subs[i].gone {
+					gone++
+				}
+			}
+			for i := 0; i < ns && gone < maxGone; i++ {
+				if sth[i].Status == k4.Done && out.Subs[i] != nil && !out.Subs[i].gone {
+					enabled = append(enabled, "x"+strconv.Itoa(i))
+				}
+			}
+			// the run ends when only cancellations are left
+			only := true
+			for _, e := range enabled {
+				if e[0] != 'x' {
+					only = false
+				}
+			}
+			if only {
+				enabled = nil
+			}
+		}
 		if len(enabled) == 0 {
 			break
 		}
@@ -549,6 +582,18 @@ func runHooked(ctl *k4.Controller, sc Scenario, prefix []string, choose chooser)
 				out.Sched = append(out.Sched, "c"+strconv.Itoa(blocked))
 				blocked = -1
 			}
+		case 'x':
+			// the subscriber goes away: cancel its context and wait until its stream is closed, so that the bus
+			// deterministically finds it dead (listener.stop has run) at the next send
+			c := out.Subs[n]
+			c.gone = true
+			c.cancel()
+			select {
+			case <-c.closed:
+			case <-time.After(5 * time.Second):
+				out.NoSentinel = append(out.NoSentinel, n)
+			}
+			out.Sched = append(out.Sched, pick)
 		case 'p':
 			split[n] = true
 			ctl.StepWait(sth[n])
@@ -601,7 +646,7 @@ func judge(sc Scenario, o *Outcome, mode string) *verdict {
 		return &verdict{fmt.Sprintf("C03/%s/%s/sentinel-not-delivered", sc.Res, mode), fmt.Sprintf("subscriber %d never received the sentinel written after all writers returned", i), "sentinel event", "none within 5s"}
 	}
 	for i, c := range o.Subs {
-		if c == nil {
+		if c == nil || c.gone {
 			continue
 		}
 		view, touched, hist := c.fold()
@@ -632,7 +677,7 @@ func judge(sc Scenario, o *Outcome, mode string) *verdict {
 				class = "overlapping-writes-reordered"
 			}
 			sig := fmt.Sprintf("C03/%s/%s/stale-view/%s", sc.Res, mode, class)
-			if mode == "stress" {
+			if mode != "k4" {
 				sig = fmt.Sprintf("C03/%s/%s/stale-view", sc.Res, mode)
 			}
 			return &verdict{sig,
@@ -951,6 +996,41 @@ func main() {
 		}
 	}
 
+	// subscriber churn: monitor only (the model has no listener removal)
+	{
+		ctl := k4.New(ptUpdSend, ptValSend, ptListener, ptCollLis, ptValLis)
+		cm := res.Monitor("converges-churn-hooked",
+			"single writer, three subscribers of which any may be cancelled at any step (its stream is awaited closed), hooked at the same yield points: scripted witnesses (subscriber registers after the listener copy of a Send that then finds a dead listener and garbage-collects, before / between deliveries) + random schedules; every subscriber still alive must converge at sentinel quiescence; deterministic, so any stale view is a violation")
+		var runs []pending
+		for _, sc := range churnWitnesses() {
+			runs = append(runs, pending{sc, runHooked(ctl, sc, sc.Sched, nil)})
+		}
+		for i := 0; i < f.N(250, 4000); i++ {
+			sc := genChurn(rng)
+			runs = append(runs, pending{sc, runHooked(ctl, sc, nil, func(en []string, _ []string) string { return en[rng.Intn(len(en))] })})
+		}
+		ctl.Close()
+		for _, c := range runs {
+			cancelled, lateSub := 0, false
+			seenX := false
+			for _, a := range c.o.Sched {
+				if a[0] == 'x' {
+					cancelled++
+					seenX = true
+				}
+				if a[0] == 's' && seenX {
+					lateSub = true
+				}
+			}
+			cm.Eval(c.sc.driverLine(nil)+strings.Join(c.o.Sched, ","), cancelled > 0 && lateSub, nil)
+			cm.Count(fmt.Sprintf("cancelled=%d", cancelled))
+			if v := judge(c.sc, c.o, "churn-single-writer"); v != nil {
+				in := map[string]any{"mode": "k4", "churn": true, "max_gone": c.sc.MaxGone, "res": c.sc.Res, "init": c.sc.Init, "writers": c.sc.Writers, "subs": c.sc.Subs, "sched": c.o.Sched}
+				cm.Violate(v.sig, v.what, in, v.expected, v.observed)
+			}
+		}
+	}
+	slowMonitor(f, res, rng)
 	stress(f, res, rng)
 	if err := res.Write(f.Out); err != nil {
 		lib.Fatal(err)
@@ -1052,9 +1132,26 @@ func replay(f lib.Flags) int {
 		Mode string `json:"mode"`
 		Scenario
 	}
-	if err := json.Unmarshal(raw, &in); err != nil || len(in.Writers) == 0 {
+	if err := json.Unmarshal(raw, &in); err != nil || (len(in.Writers) == 0 && in.Mode != "lossy-slow") {
 		fmt.Println("replay: no concrete input in file (", rp.Kind, ")")
 		return 2
+	}
+	if in.Mode == "lossy-slow" {
+		var ss SlowScenario
+		if err := json.Unmarshal(raw, &ss); err != nil {
+			lib.Fatal(err)
+		}
+		if ss.Init == nil {
+			ss.Init = map[string]int64{}
+		}
+		r := runSlow(ss)
+		fmt.Printf("replay lossy slow consumer %s -> view %s, store %s, events %s\n", ss.key(), showView(r.view), showView(r.contents), strings.Join(r.events, ";"))
+		if v := judgeSlow(ss, r); v != nil {
+			fmt.Printf("STILL FAILS %s: %s (expected %s, observed %s)\n", v.sig, v.what, v.expected, v.observed)
+			return 1
+		}
+		fmt.Println("replay: property holds on this input now")
+		return 0
 	}
 	sc := in.Scenario
 	if sc.Init == nil {
@@ -1080,7 +1177,11 @@ func replay(f lib.Flags) int {
 			fmt.Println("model:", ans[0])
 		}
 	}
-	if v := judge(sc, o, "k4"); v != nil {
+	jm := "k4"
+	if sc.Churn {
+		jm = "churn-single-writer"
+	}
+	if v := judge(sc, o, jm); v != nil {
 		fmt.Printf("STILL FAILS %s: %s (expected %s, observed %s)\n", v.sig, v.what, v.expected, v.observed)
 		return 1
 	}
